@@ -7,7 +7,7 @@ use crate::{
     security::base64_decode,
 };
 
-use super::{Error, FieldType, ParamValue, VariableType};
+use super::{unescape_string, Error, FieldType, ParamValue, VariableType};
 use pest::iterators::Pair;
 use pest::Parser;
 use pest_derive::Parser;
@@ -631,7 +631,7 @@ impl DataModel {
 
                                 Rule::string => {
                                     let pair = value_pair.into_inner().next().unwrap();
-                                    let value = pair.as_str().replace("\\\"", "\"");
+                                    let value = unescape_string(pair.as_str());
                                     match field.field_type {
                                         FieldType::String => {
                                             field.default_value =
